@@ -45,6 +45,11 @@ Theorem C15_closed_inputs : ∀ ls, wfb ls = true → inputs (bench_graph ls) = 
 Proof. exact closed_inputs. Qed.
 Print Assumptions C15_closed_inputs.
 
+(* exactly the declared outputs *)
+Theorem C15_closed_outputs : ∀ ls, wfb ls = true → outputs (bench_graph ls) = list_to_set (decl_outputs ls).
+Proof. exact closed_outputs. Qed.
+Print Assumptions C15_closed_outputs.
+
 (* every net computes what the text denotes: each consistent valuation of the circuit solves all gate equations of the text *)
 Theorem C15_closed_sound : ∀ ls, wfb ls = true → ∀ v, consistent (bench_graph ls) v → sat_bench ls v.
 Proof. exact closed_sound. Qed.
@@ -55,11 +60,15 @@ Theorem C15_closed_dff : ∀ ls, wfb ls = true → ∀ name q d, (q, d) ∈ dff_
 Proof. exact closed_dff. Qed.
 Print Assumptions C15_closed_dff.
 
-(* FULL statement for the reader (mirrored four-pass model).  Proved: the three theorems above for the closed form.
-   Missing: (1) C15_read_is_closed_form_full (the mirrored reader computes the closed form) -- decided per generated
-   case by Run_C15.agree; (2) the outputs conjunct and the completeness direction (every solution of the text extends
-   to a consistent valuation) for the closed form -- decided per case by Run_C15.holds (exact output set; the text's own
-   evaluation equals the circuit's on every net for every valuation of inputs and Q nets). *)
+(* completeness: every solution of the text extends (by the pin values) to a consistent valuation of the circuit *)
+Theorem C15_closed_complete : ∀ ls, wfb ls = true → ∀ v, sat_bench ls v →
+  ∃ v', consistent (bench_graph ls) v' ∧ agrees (list_to_set (lhs_nets ls)) v v'.
+Proof. intros ls Hwf v Hs. exists (ext_val ls v). by apply closed_complete. Qed.
+Print Assumptions C15_closed_complete.
+
+(* FULL statement for the reader (mirrored four-pass model).  Proved: C15_bench_read_denotes_partial below, i.e. the full
+   conclusion under the extra hypothesis that the mirrored reader returns the closed form.  Missing: that hypothesis for all
+   well-formed line lists (C15_read_is_closed_form_full) -- it is decided per generated case by Run_C15.agree. *)
 Definition C15_bench_read_denotes_full : Prop := ∀ name ls, wfb ls = true →
   ∃ C, bench_read name ls = Ok C
     ∧ inputs (c_g C) = list_to_set (decl_inputs ls) ∧ outputs (c_g C) = list_to_set (decl_outputs ls)
@@ -67,6 +76,14 @@ Definition C15_bench_read_denotes_full : Prop := ∀ name ls, wfb ls = true →
     ∧ (∀ v, sat_bench ls v → ∃ v', consistent (c_g C) v' ∧ agrees (list_to_set (lhs_nets ls)) v v')
     ∧ (∀ q d, (q, d) ∈ dff_lines ls → dff_between C q d).
 Definition C15_read_is_closed_form_full : Prop := ∀ name ls, wfb ls = true → bench_read name ls = Ok (bench_closed name ls).
+Theorem C15_bench_read_denotes_partial : ∀ name ls, wfb ls = true → bench_read name ls = Ok (bench_closed name ls) →
+  ∃ C, bench_read name ls = Ok C
+    ∧ inputs (c_g C) = list_to_set (decl_inputs ls) ∧ outputs (c_g C) = list_to_set (decl_outputs ls)
+    ∧ (∀ v, consistent (c_g C) v → sat_bench ls v)
+    ∧ (∀ v, sat_bench ls v → ∃ v', consistent (c_g C) v' ∧ agrees (list_to_set (lhs_nets ls)) v v')
+    ∧ (∀ q d, (q, d) ∈ dff_lines ls → dff_between C q d).
+Proof. intros name ls Hwf Hrd. exists (bench_closed name ls). split; [done|]. by apply bench_closed_denotes. Qed.
+Print Assumptions C15_bench_read_denotes_partial.
 
 (* FULL statement for the round trip, all set orders.  Not proved as a whole: the per-line theorems cover its core (a
    constant written as XOR(i,i)/XNOR(i,i) is read back as the constant, distinct operands are read back unchanged);
